@@ -31,7 +31,7 @@ theorem read_eof_facts (cfgCap : Nat) (P : ByteArray) (h : (read cfgCap P).statu
     cases hrd : Dec.init (bytesToList P 13 P.size) with
     | none =>
       simp only [hrd] at h
-      split at h <;> simp at h
+      exact absurd h (Lzma2.initStatus_ne_eof _)
     | some rd => exact ⟨p, rd, rfl, hr, rfl⟩
 
 theorem get_append_left' (a b : ByteArray) (i : Nat) (h : i < a.size) : Lzma2.get (a ++ b) i = Lzma2.get a i :=
